@@ -34,8 +34,10 @@ c=json.load(open('$D/meta.json')).get('demo_cmd','')
 m=re.search(r\"-run[ =]+['\\\"]?([^'\\\" ]+)\", c)
 print(m.group(1) if m else 'Seed|Demo|ZZ|zz')")
 RACE=""; grep -q -- '-race' <(python3 -c "import json;print(json.load(open('$D/meta.json')).get('demo_cmd',''))") && RACE="-race"
+# the package directory the demonstration belongs to (meta key demo_dir; default: the root package)
+DEMODIR=$(python3 -c "import json;print(json.load(open('$D/meta.json')).get('demo_dir','.'))")
 run_demo() {
-  if ls $D/demo_test.go* >/dev/null 2>&1; then cp $D/demo_test.go* $WT/$demo; CGO_ENABLED=${RACE:+1} go test $RACE -vet=off -count=1 -run "$RUNPAT" . >/tmp/seedeval.$$.log 2>&1; rc=$?; rm -f $WT/$demo; return $rc
+  if ls $D/demo_test.go* >/dev/null 2>&1; then cp $D/demo_test.go* $WT/$DEMODIR/$demo; (cd $WT/$DEMODIR && CGO_ENABLED=${RACE:+1} go test $RACE -vet=off -count=1 -run "$RUNPAT" . >/tmp/seedeval.$$.log 2>&1); rc=$?; rm -f $WT/$DEMODIR/$demo; return $rc
   elif [ -f $D/main.go ]; then mkdir -p $WT/zzdemo; cp $D/main.go $WT/zzdemo/main.go; go run ./zzdemo >/tmp/seedeval.$$.log 2>&1; rc=$?; rm -rf $WT/zzdemo; return $rc
   else echo "no demo"; return 3; fi
 }
